@@ -464,3 +464,63 @@ def waiting_table_keys(ctx: Ctx, rule: str):
                      f"records filed under one key are never found/removed under the other (stale "
                      f"records survive a disconnect and a late answer is sent on a new connection)",
                      rule=rule)
+
+
+def connection_table_pairing(ctx: Ctx, rule: str):
+    """Every table filled by _add_peer_connection is emptied by remove_peer_connection."""
+    from ..srcmodel import AnalysisError
+    model = ctx.model
+    nc = model.cls("node.node", "Node")
+    add = nc.methods.get("_add_peer_connection")
+    rem = nc.methods.get("remove_peer_connection")
+    if add is None or rem is None:
+        raise AnalysisError("Node._add_peer_connection/remove_peer_connection not found")
+    ctx.use(add, rem)
+    conn_param = [a.arg for a in add.node.args.args][1]
+    ctx.rule(rule, "every table filled by _add_peer_connection is emptied by "
+                       "remove_peer_connection, guarded by membership only", floor=4)
+    tables: dict[str, str] = {}
+    for n in A.walk_no_nested(add.node):
+        if isinstance(n, ast.Assign):
+            for t in n.targets:
+                if isinstance(t, ast.Subscript) and isinstance(t.value, ast.Attribute) \
+                        and A.dotted(t.value.value) == "self":
+                    tables[t.value.attr] = ast.unparse(t.slice)
+    ctx.note(f"tables filled by _add_peer_connection: {tables}")
+    rparam = [a.arg for a in rem.node.args.args][1]
+    for tbl, key in sorted(tables.items()):
+        cons = f"remove_peer_connection:delete({tbl})"
+        ctx.inst(cons, sample={"table": tbl, "insert_key": key})
+        dels = []
+        for n in A.walk_no_nested(rem.node):
+            if isinstance(n, ast.Delete):
+                for t in n.targets:
+                    if isinstance(t, ast.Subscript) and isinstance(t.value, ast.Attribute) \
+                            and t.value.attr == tbl:
+                        dels.append((n, ast.unparse(t.slice)))
+            elif isinstance(n, ast.Call) and isinstance(n.func, ast.Attribute) \
+                    and n.func.attr == "pop" and isinstance(n.func.value, ast.Attribute) \
+                    and n.func.value.attr == tbl and n.args:
+                dels.append((n, ast.unparse(n.args[0])))
+        if not dels:
+            ctx.fail(cons, rem.loc(), f"remove_peer_connection never deletes from {tbl}: entries of "
+                     f"closed connections stay for ever (stale lookups by "
+                     f"{'file number, which the OS reuses' if 'fileno' in key else 'connection id'})")
+            continue
+        want = key.replace(conn_param, rparam)
+        good = [d for d in dels if d[1] == want]
+        if not good:
+            ctx.fail(cons, rem.loc(dels[0][0]), f"{tbl} is filled under key `{key}` but emptied "
+                     f"under `{dels[0][1]}`")
+            continue
+        d = good[0][0]
+        bad = None
+        for test, pol in A.enclosing_tests(rem.node, d):
+            for conj, p_ in A.conjuncts(test, pol):
+                if tbl not in ast.unparse(conj):
+                    bad = conj
+        if bad is not None:
+            ctx.fail(cons + "#conditional", rem.loc(d),
+                     f"the delete from {tbl} only happens under `{ast.unparse(bad)}`, which is "
+                     f"not a membership test on the table: on the other branch the entry stays")
+
